@@ -20,6 +20,11 @@ MESH (wire-first: template-covered arrays are given as bytes, the asset is read 
   mesh-roundtrip        deserialize(serialize(m)) equals m (deep, arrays by value)
   mesh-segment-bytes    serialize(m) reproduces the file m was read from; every segment inflates to the same LLSD
   mesh-raw-roundtrip    include_raw_segments / parse_segment_contents=False modes round-trip byte-identically
+EDIT-AFTER-PARSE ("any model" includes models that came out of a parse and were then modified in place)
+  mesh-edit-roundtrip   read with each LLMeshSerializer configuration (incl. include_raw_segments=True), edit the parsed model,
+                        write with each configuration, read again: equals the EDITED model (site names edit + reader config)
+  anim-edit-roundtrip   from_bytes, edit (scalars / keyframe / keyframe count / joints / constraints), to_bytes, from_bytes: equal
+  model-edit-roundtrip  parse an inventory model, edit (rename / item fields / category fields / unlink / add / upsert), round trip
 TRANSFERS (every arrival sequence of length n+2 over the n<=4 chunk indices, oracle after every prefix)
   sender-chunks         the sender's chunk list concatenates to length-prefix + payload, EOF flag on the last chunk only
   complete-early        done() is true before every chunk 0..eof has arrived
@@ -268,6 +273,15 @@ def check_model(part: Part, mspec: Dict[str, Any], flavor: str):
         except Exception as e:
             ok = False
             part.violation("model-fixed-point", f"{ser_name}:{flavor}:{_exc_site(e)}", witness, repr(e))
+    if ok and flavor == "text":
+        try:
+            m3 = InventoryModel.from_bytes(model.to_bytes())
+            if not (m3 == model) or list(m3.nodes) != list(m2.nodes):
+                ok = False
+                part.violation("model-roundtrip", "InventoryModel.from_bytes:text", witness, "bytes entry points disagree with the str ones")
+        except Exception as e:
+            ok = False
+            part.violation("parse-raises", f"InventoryModel.from_bytes:text:{_exc_site(e)}", witness, repr(e))
     kinds = tuple(_kind(n) for n in model.nodes.values())
     part.mark_nontrivial(("inv-model", flavor, kinds, tuple(s["parent"] == ag.ZERO for s in mspec["nodes"])))
     part.outcome(("inv-model", flavor, ok, kinds, len(m2.nodes), zlib.crc32(repr(keep).encode("utf8", "replace")) & 0xFFF))
@@ -1182,7 +1196,7 @@ def check_mesh_edits(part: Part, spec: Dict[str, Any], grid: str):
             if not edit(m):
                 continue
             want_segments, want_header = copy.deepcopy(dict(m.segments)), _header_view(copy.deepcopy(dict(m.header)))
-            for wc in writers:
+            for wc in (writers if grid == "full" or ename == "none" else writers[:1]):
                 part.count("evaluations")
                 part.count("mesh_edit_roundtrips")
                 witness = {"part": "mesh-edit", "spec": spec, "grid": grid, "reader": list(rc), "edit": ename, "writer": list(wc)}
@@ -1358,10 +1372,12 @@ def _model_edits(flavor: str):
             ("upsert", upsert))
 
 
-def check_model_edits(part: Part, mspec: Dict[str, Any], flavor: str):
+def check_model_edits(part: Part, mspec: Dict[str, Any], flavor: str, only: Optional[int] = None):
+    """only = index of the single edit to apply (quick tier rotates the edits over the 3-node models); None = every edit."""
     mspec = {"nodes": [ag.restrict(s, flavor) for s in mspec["nodes"]]}
     ser, par, par_name = _model_codec(flavor)
-    for ename, edit in _model_edits(flavor):
+    edits = _model_edits(flavor)
+    for ename, edit in (edits if only is None else [edits[only % len(edits)]]):
         witness = {"part": "inv-model-edit", "flavor": flavor, "spec": mspec, "edit": ename}
         try:
             m = par(ser(build_model(mspec)))          # the model under edit came out of a parse
@@ -1418,9 +1434,9 @@ def _work(unit):
             part.sample({"part": "inv-node", "flavor": flavor, "spec": ag.restrict(specs[len(specs) // 2], flavor)}, limit=1)
     elif kind == "inv-model":
         flavor, specs = payload
-        for s in specs:
+        for i, s in enumerate(specs):
             check_model(part, s, flavor)
-            check_model_edits(part, s, flavor)
+            check_model_edits(part, s, flavor, None if (_FULL or len(s["nodes"]) < 3) else i)
     elif kind == "enum":
         for cls_name, v in payload:
             check_enum(part, cls_name, v)
@@ -1501,7 +1517,7 @@ def build_units(full: bool) -> List[Tuple[str, Any]]:
     for g in ag.mesh_grid_cases(full):
         units.append(("mesh-grid", [g]))
     extra = 3 if full else 2   # arrival sequences of length n+2 (quick) / n+3 (thorough); shorter ones are their prefixes
-    for mode in MODES:
+    for mode in (MODES if full else tuple(m for m in MODES if m != "xfer-turbo")):   # turbo only changes the acks sent
         proto = mode.split("-")[0]
         sizes = transfer_sizes(proto)
         if not full:   # quick: the boundary triple of every chunk count, not the extra m*chunk / m*chunk+1 sizes
@@ -1509,7 +1525,7 @@ def build_units(full: bool) -> List[Tuple[str, Any]]:
             for sz in sizes:
                 by_n.setdefault(_n_chunks(proto, sz), []).append(sz)
             for n, lst in sorted(by_n.items()):
-                keep += ([lst[0], lst[-1]] if n == 4 else lst)
+                keep += ([lst[0]] if n == 4 else lst)
             sizes = sorted(set(keep))
         for size in sizes:
             n = _n_chunks(proto, size)
@@ -1547,7 +1563,9 @@ def run(run: Run):
         "chunks x every arrival sequence of length n+%d over the n chunk indices x 5 receiver modes (Xfer via request()+pump / direct handler / "
         "turbo, Transfer via request()+pump / direct handler), oracle after every prefix; upload_asset end to end for every size. "
         "distinct_nontrivial = distinct (kind, flavour, present-field set) / model shapes / animation shapes / mesh shapes / "
-        "complete out-of-order arrival sequences") % (3 if full else 2)
+        "complete out-of-order arrival sequences. EDIT-AFTER-PARSE: every mesh case x reader configurations x 13 in-place edits x "
+        "writer configurations; every animation case x 6 edits; every model case x 3 flavours x 6 edits (quick: edits rotate over the "
+        "3-node models)") % (3 if full else 2)
     run.assumptions += [
         "inventory names/descriptions/metadata strings are from the line format's domain: no TAB/CR/LF/'|', no leading or trailing whitespace "
         "(empty strings, interior blanks, braces, non-ASCII are in); wearable names additionally non-empty",
@@ -1563,6 +1581,25 @@ def run(run: Run):
         "arrival sequences contain only the chunk indices 0..eof of the transfer itself (no packets beyond the end marker, no foreign ids)",
         "LLSD flavours are exercised at the python-object level (to_llsd/from_llsd), not through an LLSD wire encoding (that is C12)",
     ]
+    run.coverage_extra["codec_options"] = {
+        "LLMeshSerializer(parse_segment_contents, allow_invalid_segments, include_raw_segments)":
+            "all 8 combinations used as writers and as readers (thorough, on the quick-tier case set; reduced grid elsewhere: readers "
+            "{parse+raw, parse}, writers {default, +raw, +allow_invalid}); the 4 parse_segment_contents=True readers feed the "
+            "edit-after-parse check (13 in-place edits: none, vertex, vertex-add, weight, weight-drop, material-add/-drop, lod-remove/-add, "
+            "segment-add, header, skin, convex), the 4 unparsed readers must reproduce the file with every writer; outer buffer "
+            "endianness '!' and '<' both used",
+        "Animation.to_bytes/from_bytes": "no options; edited after from_bytes (scalars, keyframe value, keyframe count, joint add incl. "
+                                         "duplicate name, joint remove, constraint add/remove). NOT varied: se.BufferReader(pod=True) "
+                                         "(plain-data output is not a model)",
+        "Inventory": "flavor in {legacy text, 'legacy', 'ais'}; from_reader(read_header=True) and read_header=False (via from_bytes); "
+                     "str and bytes entry points at node and model level; models edited after parse (rename, item fields, category "
+                     "fields, unlink, add, upsert). InventoryModel.from_reader(read_header=...) is ignored by the code",
+        "Wearable": "no options (from_str and from_bytes both used)",
+        "Xfer/Transfer": "XferManager.request(turbo) False/True (True in thorough only), direct handler and request()+pump; "
+                         "serve_inbound_xfer_request(wait_for_confirm) False (sender runs) and True (end-to-end upload). NOT varied: "
+                         "use_big_packets / delete_on_completion / file_path (only copied into the RequestXfer message), "
+                         "UploadStrategy override, TransferManager.request(channel_type, priority)",
+    }
     run.coverage_extra["units"] = len(units)
     run.coverage_extra["histories"] = c.get("histories", 0)
     run.coverage_extra["arrivals"] = c.get("arrivals", 0)
